@@ -174,8 +174,18 @@ def run_chunk(task):
         try:
             r = forked(run_summary, stratum, seed, index, want_fp, timeout=RUN_TIMEOUT)
         except ChildFailure as e:
-            out["harness"].append([stratum, index, str(e)])
-            continue
+            if "wait status 14" not in str(e):
+                out["harness"].append([stratum, index, str(e)])
+                continue
+            # the watchdog fired: a slow but legitimate history (e.g. a huge
+            # slab after a half-done switch) gets one more go with a long
+            # limit; a real hang still ends as a harness error
+            try:
+                r = forked(run_summary, stratum, seed, index, want_fp, timeout=RUN_TIMEOUT * 6)
+                out["stats"]["runs_that_needed_the_long_time_limit"] += 1
+            except ChildFailure as e2:
+                out["harness"].append([stratum, index, str(e2)])
+                continue
         out["runs"] += 1
         out["stats"]["cpu_s:" + stratum] += r["wall"]
         out["status"][r["status"]] += 1
